@@ -165,12 +165,27 @@ def build_files(spec):
 # ---------------------------------------------------------------------------------------------------
 # the property's own rule on the generator's spec (independent of the Lean model and of /repo)
 
+def omitted(spec, m):
+    """selective GAPIC generation in omit mode: a method outside the allow-list is not part of the generated API"""
+    sg = spec.get("selective")
+    return bool(sg and sg["methods"] and not sg.get("internal") and selector(m) not in sg["methods"])
+
+
+def effective_spec(spec):
+    """the API that is generated: without the omitted methods (omit mode); everything else as declared"""
+    if not spec.get("selective"):
+        return spec
+    return dict(spec, methods=[m for m in spec["methods"] if not omitted(spec, m)])
+
+
 def entry_violations(spec, entry):
     by_sel = {selector(m): m for m in spec["methods"]}
     m = by_sel.get(entry["selector"])
     if m is None:
         return ["no-method"]
-    out = []
+    # a declared method that selective generation omits: whether "the method exists" is not settled by the statement
+    # (see statement_ok); the entry's other violations count as usual
+    out = ["omitted"] if omitted(spec, m) else []
     fields = entry.get("fields") or []
     if fields and m["streaming"] != "unary":
         out.append("streaming")
@@ -198,11 +213,17 @@ def entry_violations(spec, entry):
 
 
 def statement_ok(spec, settings):
+    """True: must generate; False: must fail; None: the statement makes no demand — the list's only blemish is an otherwise
+    valid entry for a method that selective generation (omit mode) leaves out of the API: the method is declared in the
+    protos but is no method of the generated API"""
     sels = [e["selector"] for e in settings]
     if len(set(sels)) != len(sels):
         return False, ["duplicate"]
     v = [x for e in settings for x in entry_violations(spec, e)]
-    return (not v), v
+    hard = [x for x in v if x != "omitted"]
+    if hard:
+        return False, hard
+    return (None if v else True), v
 
 
 # ---------------------------------------------------------------------------------------------------
@@ -351,11 +372,18 @@ def yaml_entry(e):
     return d
 
 
-def write_yaml(settings, rest_async=True):
+def write_yaml(settings, rest_async=True, selective=None):
     y = {"type": "google.api.Service", "config_version": 3, "name": "ids.example.com",
          "publishing": {"method_settings": [yaml_entry(e) for e in settings]}}
+    ps = {}
     if rest_async:
-        y["publishing"]["library_settings"] = [{"version": PKG, "python_settings": {"experimental_features": {"rest_async_io_enabled": True}}}]
+        ps["experimental_features"] = {"rest_async_io_enabled": True}
+    if selective:
+        # the same yaml carries method_settings AND library_settings…selective_gapic_generation
+        ps["common"] = {"selective_gapic_generation": {"methods": list(selective["methods"]),
+                                                       "generate_omitted_as_internal": bool(selective.get("internal"))}}
+    if ps:
+        y["publishing"]["library_settings"] = [{"version": PKG, "python_settings": ps}]
     fd, path = tempfile.mkstemp(prefix="gapicverif_c18_", suffix=".yaml", dir=genrun.SCRATCH)
     with os.fdopen(fd, "w") as fh:
         yaml.safe_dump(y, fh)
@@ -363,7 +391,7 @@ def write_yaml(settings, rest_async=True):
 
 
 def make_request(spec, settings, transport="grpc+rest", rest_async=True):
-    path = write_yaml(settings, rest_async)
+    path = write_yaml(settings, rest_async, spec.get("selective"))
     files = build_files(spec)
     return files, apigen.request(files, f"transport={transport},autogen-snippets=false,service-yaml={path}"), path
 
@@ -394,9 +422,12 @@ def render_views(api):
     return out
 
 
-def model_generation(ctx, api, aj, settings_lists):
+def model_generation(ctx, api, aj, settings_lists, selective=None):
+    """`aj`: the methods of the API as DECLARED (no selective generation applied: the model prunes by itself);
+    `api`: the real schema object the generator works on (views are read off it)"""
     views = render_views(api)
-    return ask(ctx, [{"op": "c18.generate", "api": aj, "views": views,
+    sel = {"methods": list(selective["methods"]), "internal": bool(selective.get("internal"))} if selective else None
+    return ask(ctx, [{"op": "c18.generate", "api": aj, "views": views, "selective": sel,
                       "settings": [{"selector": e["selector"], "fields": list(e.get("fields") or [])} for e in s]} for s in settings_lists])
 
 
@@ -490,6 +521,9 @@ def t2(ctx, api, aj, spec, lists, label):
 
 def oracle_generation(ctx, want, viol, ok, errs, settings, payload):
     """generation fails unless every condition holds and no selector repeats; the message names the offenders"""
+    if want is None:
+        ctx.count("no_demand", "omitted-method-entry/" + ("accepted" if ok else "rejected"))
+        return
     if want and not ok:
         key = "rejected-valid"
         known_sels = {selector(m) for m in payload["spec"]["methods"]}
@@ -505,7 +539,7 @@ def oracle_generation(ctx, want, viol, ok, errs, settings, payload):
         sels = [e["selector"] for e in settings]
         offenders = {s for s in sels if sels.count(s) > 1}
         spec = payload["spec"]
-        offenders |= {e["selector"] for e in settings if entry_violations(spec, e)}
+        offenders |= {e["selector"] for e in settings if [x for x in entry_violations(spec, e) if x != "omitted"]}
         missing = offenders - set(errs)
         if missing:
             ctx.fail("offender-not-named", f"error message does not name {sorted(missing)}: {errs}", payload)
@@ -696,8 +730,13 @@ def t3(ctx, r, spec, settings, klass, script=None, paths=ALL_PATHS, run_tests=Fa
     try:
         api, _ = genrun.build_api(req)
         aj = api_json(api)
+        aj0 = aj
+        if spec.get("selective"):
+            # the declared API (what the model prunes) vs the API the generator works on (what the real code pruned)
+            api0, _ = genrun.build_api(apigen.request(files, "transport=grpc+rest,autogen-snippets=false"))
+            aj0 = api_json(api0)
         want, viol = statement_ok(spec, settings)
-        mo = model_generation(ctx, api, aj, [settings])[0]
+        mo = model_generation(ctx, api, aj0, [settings], spec.get("selective"))[0]
         try:
             with warnings.catch_warnings():
                 warnings.simplefilter("ignore")
@@ -714,13 +753,21 @@ def t3(ctx, r, spec, settings, klass, script=None, paths=ALL_PATHS, run_tests=Fa
                  distinct_key=["t3", json.dumps(spec, sort_keys=True), json.dumps(settings, sort_keys=True)])
         ctx.count("generation_outcome", ("accepted" if ok else "MethodSettingsError") + "/" + klass.split(":")[0])
         ctx.count("generation_layout", spec.get("layout", "flat") + ("/accepted" if ok else "/rejected"))
+        if spec.get("selective"):
+            ctx.count("generation_selective", ("internal" if spec["selective"].get("internal") else "omit") + "/" + klass.split(":")[0] + ("/accepted" if ok else "/rejected"))
         ctx.traces += 1
         if mo["accepted"] != ok or model_errors(mo) != errs:
             ctx.disagree("T3:c18.generation_outcome", f"model accepted={mo['accepted']} errors={model_errors(mo)} vs generator accepted={ok} errors={errs}", payload)
         oracle_generation(ctx, want, viol, ok, errs, settings, payload)
-        if not ok or not want or not calls:
+        if not ok or want is not True or not calls:
             return
         # ------------------------------------------------------------------ call time
+        declared = spec
+        spec = effective_spec(spec)          # selective generation, omit mode: the generated API lacks the omitted methods
+
+        def pyname(mm):
+            # internal methods (generate_omitted_as_internal) are emitted with a leading underscore
+            return snake(api.all_methods[selector(mm)].client_method_name)
         root = genrun.materialise(res)
         script = script or gen_script(r, spec, settings, ctx.n(5, 8))
         payload = dict(payload, script=script)
@@ -767,7 +814,7 @@ def t3(ctx, r, spec, settings, klass, script=None, paths=ALL_PATHS, run_tests=Fa
                     c = script["calls"][k]
                     mm = by_name[c["method"]]
                     g, h = server_script(mm, c)
-                    calls.append({"method": snake(c["method"]), "mode": c["mode"], "obj": c["obj"], "kwargs": c.get("kwargs"),
+                    calls.append({"method": pyname(mm), "mode": c["mode"], "obj": c["obj"], "kwargs": c.get("kwargs"),
                                   "client": c.get("client", 0), "consume": "pager" if mm.get("flavor") == "paged" else "value",
                                   "script_grpc": g, "script_rest": h})
                 ops.append({"op": "c18_session", "kind": path, "clients": 2,
@@ -918,7 +965,7 @@ def t3(ctx, r, spec, settings, klass, script=None, paths=ALL_PATHS, run_tests=Fa
                     continue
                 auto = raw_of.get(selector(mm), [])
                 for p, (src, suffix) in srcs.items():
-                    got = emitted_pipeline(src, suffix, snake(mm["name"]))
+                    got = emitted_pipeline(src, suffix, pyname(mm))
                     model = [x for x in pl[0 if p == "sync" else 1]["stmts"] if x in ("populate", "validateUniverse", "send")]
                     want_seq = []
                     for x in model:
@@ -954,7 +1001,7 @@ def run_corpus(ctx):
                 blob = json.load(fh)
             p = blob.get("payload", blob)
             t3(ctx, ctx.rng("corpus", fn), p["spec"], p["settings"], p.get("class", "corpus"), script=p.get("script"),
-               paths=tuple(p.get("paths", ALL_PATHS)), run_tests=bool(p.get("run_tests")))
+               paths=tuple(p.get("paths", ALL_PATHS)), run_tests=bool(p.get("run_tests")) and not ctx.quick, calls=p.get("calls", True))
             ctx.count("stream", "corpus")
 
 
@@ -972,6 +1019,11 @@ def run(ctx):
                 "package and one in a sub-package, either way round; each service in a sub-package of its own; a sub-package of a sub-package), "
                 "generated through the real Generator with autogen-snippets=false: per service a valid list, every single violation, a duplicate, "
                 "lists spanning both services, the wrong-package spellings of a selector; call time through the emitted sub-package clients. "
+                "Service yamls that carry method_settings AND library_settings…selective_gapic_generation (allow-list = a proper subset of the "
+                "methods; omit mode and generate_omitted_as_internal): settings lists with selectors inside / outside the allow-list x existing / "
+                "non-existing (misspelt method, misspelt service, foreign API), each single violation on an allow-listed method, duplicates, random "
+                "lists — T2 on the schema object built from that yaml, generation through the real Generator, call time on the pruned library and "
+                "on internal (underscore) methods. "
                 "distinct = (settings list) for T2/T3-generation, (settings, path, call, caller object) for calls; every generated case is non-trivial")
     ctx.assume("string members of a real oneof, request messages from another proto package (no proto-plus wrapper), field names that are Python "
                "reserved words are outside the quantifier's declaration list and are not generated")
@@ -985,9 +1037,15 @@ def run(ctx):
                "and pairwise distinctness of every id the servers saw")
     ctx.assume("APIs with services in sub-packages are generated with autogen-snippets=false (snippet generation raises KeyError for such services: "
                "C14/C01's subject); request and response messages live in the file of their service")
+    ctx.assume("selective GAPIC generation is combined with method settings for APIs whose services all live in ONE package (flat, or all in one "
+               "sub-package): with services in several packages every allow-list is rejected by a sub-package view's all_library_settings "
+               "(ClientLibrarySettingsError 'Method does not exist.': library settings are C16's subject); allow-lists name existing methods only")
+    ctx.assume("omit mode: an otherwise valid entry for a declared method that selective generation leaves out of the API is neither required to "
+               "generate nor to fail (the statement's 'the method exists' is not settled for it; the code answers 'Method was not found.', which the "
+               "model follows: omitted_method_settings_rejected); any other violation in such a list must still abort the generation")
     run_corpus(ctx)
     r = ctx.rng("apis")
-    napis = ctx.n(3, 16)      # quick: the five sub-package layouts below add five more APIs with call-time sessions
+    napis = ctx.n(3, 12)      # the sub-package layouts and the selective-generation yamls below add 5 + 2 (thorough: 10 + 8) APIs
     for a in range(napis):
         spec = gen_spec(r, must_have=SINGLE_DEFECTS if a % 2 == 0 else SINGLE_DEFECTS[::-1])
         files = build_files(spec)
@@ -1005,14 +1063,18 @@ def run(ctx):
         lists += shaped
         t2(ctx, api, aj, spec, lists, f"api{a}")
         # T3 on a sub-list: accepted ones reach call time
-        pick = shaped + [x for x in lists if x[1] == "valid"][:ctx.n(1, 3)]
+        pick = shaped + [x for x in lists if x[1] == "valid"][:ctx.n(0, 3)]
         rest = [x for x in lists if not x[1].startswith(("valid", "shape"))]
         r.shuffle(rest)
-        pick += rest[:ctx.n(7, 20)]
+        pick += rest[:ctx.n(5, 20)]
         for n_, (settings, klass) in enumerate(pick):
-            t3(ctx, r, spec, settings, klass, run_tests=((n_ == 0 and a == 0) or not ctx.quick) and klass.startswith(("valid", "shape")))
+            # quick tier: two of the four paths per library, alternating (every path is walked by every API)
+            paths = ALL_PATHS if not ctx.quick else [("sync", "rest_asyncio"), ("asyncio", "rest")][(n_ + a + int(ctx.seed or 0)) % 2]
+            t3(ctx, r, spec, settings, klass, paths=paths,
+               run_tests=((n_ == 0 and a == 0) or not ctx.quick) and klass.startswith(("valid", "shape")))
             ctx.count("stream", "generated")
-    run_layouts(ctx, ctx.rng("layouts"), ctx.n(1, 3), ctx.n(2, 30), ctx.n(1, 3))
+    run_layouts(ctx, ctx.rng("layouts"), ctx.n(1, 2), ctx.n(1, 30), ctx.n(1, 2))
+    run_selective(ctx, ctx.rng("selective"), ctx.n(1, 2), ctx.n(30, 100), ctx.n(6, 15), layouts=("flat",) if ctx.quick else ("flat", "allsub"))
 
 
 def layout_lists(r, spec, nrandom, thin=False):
@@ -1050,7 +1112,8 @@ def layout_lists(r, spec, nrandom, thin=False):
         if unary:
             both.append(good_entry(r, r.pick(unary), allow_empty=False))
     out.append((both, "valid:both-services"))
-    out.append(([{"selector": e["selector"], "fields": []} for e in both], "valid:both-services-no-fields"))
+    if not thin:
+        out.append(([{"selector": e["selector"], "fields": []} for e in both], "valid:both-services-no-fields"))
     out += [gen_settings(r, spec) for _ in range(nrandom)]
     return out
 
@@ -1080,6 +1143,87 @@ def run_layouts(ctx, r, napis, nrandom, ncalls, layouts=None):
                 ctx.count("stream", "generated-layout:" + layout)
 
 
+def gen_selective(r, spec, internal):
+    """an allow-list for selective GAPIC generation: a proper, non-empty subset of the API's methods with at least one
+    unary method inside and one outside"""
+    unary = [m for m in spec["methods"] if m["streaming"] == "unary"]
+    r.shuffle(unary)
+    inside = unary[:max(1, len(unary) // 2)]
+    outside = unary[len(inside):] or []
+    rest = [m for m in spec["methods"] if m["streaming"] != "unary"]
+    inside += [m for m in rest if r.maybe(0.5)]
+    if not outside and len(inside) > 1:
+        outside = [inside.pop()]
+    allow = [selector(m) for m in spec["methods"] if m in inside]        # declaration order
+    return {"methods": allow, "internal": bool(internal)}
+
+
+def selective_lists(r, spec, nrandom):
+    """settings lists for an API generated selectively: selectors inside / outside the allow-list x existing / non-existing"""
+    eff = dict(spec, methods=[m for m in spec["methods"] if selector(m) in spec["selective"]["methods"]])
+    out_ms = [m for m in spec["methods"] if selector(m) not in spec["selective"]["methods"]]
+    out_unary = [m for m in out_ms if m["streaming"] == "unary"]
+    lists = []
+    s, _ = gen_settings(r, eff, "valid")
+    lists.append((s, "valid:inside"))
+    # every single violation on an entry of an allow-listed method (unknown selectors are never on the allow-list)
+    for which in VIOLATIONS:
+        s, _ = gen_settings(r, eff, "valid")
+        lists.append((s, "violation:inside:" + inject(r, eff, s, which)))
+    # unknown selectors built from an OMITTED method's name, and a foreign one
+    if out_unary:
+        m = r.pick(out_unary)
+        for bad in (selector(m) + "g", f"{pkg_of(m)}.{m['service']}z.{m['name']}", "no.such.Api.Method"):
+            s, _ = gen_settings(r, eff, "valid")
+            s.insert(r.randint(0, len(s)), {"selector": bad, "fields": ["request_id"]})
+            lists.append((s, "violation:unknown-selector"))
+        lists.append(([{"selector": selector(m) + "g", "fields": ["request_id"]}], "violation:unknown-selector-alone"))
+        # a valid entry for an omitted method (alone / next to allow-listed ones), and an invalid one
+        lists.append(([good_entry(r, m, allow_empty=False)], "valid:outside"))
+        s, _ = gen_settings(r, eff, "valid")
+        s.append(good_entry(r, m, allow_empty=False))
+        lists.append((s, "valid:inside+outside"))
+        s = [good_entry(r, m, allow_empty=False)]
+        lists.append((s, "violation:outside:" + inject(r, dict(spec, methods=[m]), s, r.pick(["missing", "nested", "kind"]))))
+    s, lab = gen_settings(r, eff, "duplicate")
+    lists.append((s, lab))
+    lists += [gen_settings(r, spec) for _ in range(nrandom)]
+    return lists
+
+
+def run_selective(ctx, r, napis, nrandom, nt3, layouts=("flat",), modes=(False, True)):
+    """service yamls that carry `method_settings` AND `library_settings … selective_gapic_generation` (omit mode and
+    generate_omitted_as_internal): T2 on the schema object built from that yaml, generation through the real Generator,
+    call time on the generated (pruned / partly internal) library"""
+    for layout in layouts:
+        for a in range(napis):
+            for internal in modes:
+                spec = gen_spec(r, must_have=SINGLE_DEFECTS if a % 2 == 0 else SINGLE_DEFECTS[::-1], layout=layout)
+                spec["selective"] = gen_selective(r, spec, internal)
+                lists = selective_lists(r, spec, nrandom)
+                files, req, ypath = make_request(spec, [])
+                try:
+                    api, _ = genrun.build_api(req)          # the schema object selective generation produced
+                finally:
+                    os.unlink(ypath)
+                tag = ("internal" if internal else "omit")
+                t2(ctx, api, api_json(api), spec, lists, f"selective-{tag}-{layout}{a}")
+                viol = [x for x in lists if not x[1].startswith(("valid", "duplicate", "multi"))]
+                viol.sort(key=lambda x: not x[1].startswith(("violation:unknown", "violation:outside")))       # stable
+                fixed = viol[:nt3] + [x for x in lists if x[1] in ("valid:outside", "valid:inside+outside")]
+                called = False
+                for settings, klass in [x for x in lists if x[1] == "valid:inside"] + fixed:
+                    go = klass == "valid:inside" and not called and (not ctx.quick or internal == bool((a + int(ctx.seed or 0)) % 2))
+                    paths = ALL_PATHS if not ctx.quick else [("sync", "rest_asyncio"), ("asyncio", "rest")][(a + int(ctx.seed or 0)) % 2]
+                    t3(ctx, r, spec, settings, klass, calls=go, paths=paths)
+                    called = called or go
+                    ctx.count("stream", f"generated-selective:{tag}")
+                # internal mode: a valid entry of an OMITTED (internal) method reaches call time as well
+                if internal and not ctx.quick:
+                    for settings, klass in [x for x in lists if x[1] == "valid:inside+outside"][:1]:
+                        t3(ctx, r, spec, settings, klass)
+
+
 def search(ctx):
     r = ctx.rng("search")
     for a in range(6):
@@ -1092,6 +1236,7 @@ def search(ctx):
         for settings, klass in [x for x in lists if x[1] == "valid"][:3]:
             t3(ctx, r, spec, settings, klass)
     run_layouts(ctx, ctx.rng("search-layouts"), 3, 40, 1)
+    run_selective(ctx, ctx.rng("search-selective"), 3, 200, 40, layouts=("flat", "allsub"))
 
 
 def replay(ctx, payload):
@@ -1122,7 +1267,8 @@ CLAIM = dict(
           'sent unchanged, that ids of different populating calls differ, that no call can fail for a missing `import uuid` whatever the order of the '
           'entries, and that the follow-up requests of a paginated call repeat the first id. Tie: T2 real enforce_valid_method_settings vs the model '
           'on generated settings lists (incl. reversed and shaped lists); T3 generation outcome (MethodSettingsError + YAML error map) of the real '
-          'Generator vs the model, also for APIs whose services live in proto sub-packages (five layouts), '
+          'Generator vs the model, also for APIs whose services live in proto sub-packages (five layouts) and for service yamls that switch on '
+          'selective GAPIC generation (omit / internal mode; the model prunes the declared API itself: selective_generation_rejects_invalid), '
           'the requests seen by loopback gRPC/HTTP servers across programs of calls (literal instance/dict/kwargs/no request, two clients, the same '
           'object twice, paginated and LRO methods) on four paths vs the model, the statement order and import gate of the emitted client modules, '
           '(the emitted unit tests of the feature are run for information only); a model-independent oracle restating AIP-4235.'),
